@@ -4,7 +4,9 @@ RULE = ("exhaustive enumeration of segment arrangements, each distinct by constr
         "(A) every set of 1..6|8 of the 36 segments between points of a 3x3 lattice (long segments through lattice points and "
         "knight-type segments crossing off-lattice included); (B) every even-degree subgraph of the 4x3 8-neighbour lattice (2^18); "
         "(C) every multiset over the 36 segments with multiplicities 0..3, one at least doubled, total <= 5|6; (D) every subset of a "
-        "catalogue of 10|14 nested / touching / edge-sharing / node-crossing rings on a 7x7 lattice with <= 8|10 touching points. "
+        "catalogue of 10|14 nested / touching / edge-sharing / node-crossing rings on a 9x9 lattice with <= 8|10 touching points; (E) every "
+        "subset of a 10|12-ring catalogue around a tower of five strictly nested squares on an 11x13 lattice (nesting depth 5, holes "
+        "above nested islands). "
         "Every input is realised as OSM ways and pushed through the real osmium::area::Assembler: invalid inputs as one way per "
         "segment, as maximal trails (also through Assembler(Way) when one way) and, when all rings are closed, in every cutting x 3 "
         "images; valid inputs in up to 6 cuttings (maximal trails, one way per segment, peeled simple cycles, pieces of 2 and 3 "
@@ -42,6 +44,8 @@ def run(ctx):
         (fast, ["--part", "A", "--kmin", "1", "--kmax", "6", "--level-valid", "1", "--level-invalid", "1" if thorough else "0"]),
         (fast, ["--part", "C", "--total", "6" if thorough else "5", "--level-valid", "1", "--level-invalid", "1" if thorough else "0"]),
         (fast, ["--part", "D", "--rings", "14" if thorough else "10", "--maxtouch", "10" if thorough else "8",
+                "--level-valid", "1" if thorough else "0", "--level-invalid", "1" if thorough else "0"]),
+        (fast, ["--part", "E", "--rings", "12" if thorough else "10", "--maxtouch", "10" if thorough else "8",
                 "--level-valid", "1" if thorough else "0", "--level-invalid", "1" if thorough else "0"]),
         (fast, ["--part", "B", "--level-valid", "1" if thorough else "0", "--level-invalid", "1" if thorough else "0"]),
         # the library's own assertions enabled (debug builds): same oracle, an assertion abort is attributed to its case
